@@ -2,10 +2,10 @@ package main
 
 import (
 	"fmt"
-	"strings"
 	"go/token"
 	"go/types"
 	"sort"
+	"strings"
 
 	"golang.org/x/tools/go/ssa"
 )
@@ -50,20 +50,20 @@ type kindState struct {
 type kindAnalysis struct {
 	ifaceT map[*ssa.Global]bool
 	fieldW map[string]wrapState // "Struct.field" -> wrap state of what is stored there (vm-local structs)
-	m     *vmModel
-	discr map[*ssa.Function]map[int]string // helper -> parameter index -> why it discriminates
-	finds map[*ssa.Function][]kindFinding  // findings inside functions working on a record (operands = rv)
+	m      *vmModel
+	discr  map[*ssa.Function]map[int]string // helper -> parameter index -> why it discriminates
+	finds  map[*ssa.Function][]kindFinding  // findings inside functions working on a record (operands = rv)
 }
 
 type kindFlow struct {
-	reporting bool                     // findings are recorded only in the pass over the fixpoint states
-	feas   map[[2]*ssa.BasicBlock]bool // CFG edges found feasible in the wrapped world
-	a      *kindAnalysis
-	fn     *ssa.Function
-	base   ssa.Value
-	wrapP  int // index of the parameter assumed wrapped (-1: none, operands come from the rv cell)
-	finds  map[string]kindFinding
-	pdiscr string // why the wrapped parameter is discriminated (helper mode)
+	reporting bool                        // findings are recorded only in the pass over the fixpoint states
+	feas      map[[2]*ssa.BasicBlock]bool // CFG edges found feasible in the wrapped world
+	a         *kindAnalysis
+	fn        *ssa.Function
+	base      ssa.Value
+	wrapP     int // index of the parameter assumed wrapped (-1: none, operands come from the rv cell)
+	finds     map[string]kindFinding
+	pdiscr    string // why the wrapped parameter is discriminated (helper mode)
 }
 
 func isReflectValue(t types.Type) bool {
